@@ -57,6 +57,7 @@ def relevant (c : Nat) : Op → Bool
   | .arrive c' _ _ => c' = c
   | .poll c' => c' = c
   | .drop c' => c' = c
+  | .refused _ _ => false      -- a refused arrival leaves no record: it concerns nobody's call
 
 /-- the single-caller machine: clock + the record of one caller -/
 def track (cfg : Cfg) (c : Nat) (p : Nat × Option Caller) (op : Op) : Nat × Option Caller :=
@@ -70,6 +71,7 @@ def track (cfg : Cfg) (c : Nat) (p : Nat × Option Caller) (op : Op) : Nat × Op
       else p
   | .poll c' => if c' = c then (p.1, p.2.map (fun x => (pollC cfg p.1 x).1)) else p
   | .drop c' => if c' = c then (p.1, p.2.map (fun x => (dropC cfg p.1 x).1)) else p
+  | .refused _ _ => p
 
 theorem proj_applyC (s : State) (c' c : Nat) (f : Caller → Caller × List CEv) :
     proj (applyC s c' f) c =
@@ -106,6 +108,9 @@ theorem proj_step (cfg : Cfg) (s : State) (op : Op) (c : Nat) :
       | some x => simp [proj, hc]
   | poll c' => simp only [stepS, track, proj_applyC]; rfl
   | drop c' => simp only [stepS, track, proj_applyC]; rfl
+  | refused c' e =>
+    simp only [stepS, track]
+    cases lookup s.callers c' <;> rfl
 
 theorem proj_foldl (cfg : Cfg) (ops : List Op) (s : State) (c : Nat) :
     proj (ops.foldl (stepS cfg) s) c = ops.foldl (track cfg c) (proj s c) := by
@@ -597,6 +602,7 @@ theorem track_inv (cfg : Cfg) (c : Nat) (p : Nat × Option Caller) (op : Op) (h 
       | none => simp at hx
       | some y => simp at hx; subst hx; exact dropC_inv cfg now y (h y rfl)
     · exact h
+  | refused c' e => exact h
 
 theorem track_foldl_inv (cfg : Cfg) (c : Nat) (ops : List Op) (p : Nat × Option Caller)
     (h : PInv cfg p) : PInv cfg (ops.foldl (track cfg c) p) := by
@@ -980,6 +986,14 @@ theorem stepS_hil (cfg : Cfg) (s : State) (op : Op) (h : HistInLog s) : HistInLo
         simp [newCaller] at hm
   | poll c' => exact applyC_hil s c' s.now _ (fun x => pollC_lock cfg s.now x) h
   | drop c' => exact applyC_hil s c' s.now _ (fun x => dropC_lock cfg s.now x) h
+  | refused c' e =>
+    simp only [stepS]
+    cases lookup s.callers c' with
+    | some _ => exact h
+    | none =>
+      intro c x t ev hl hm
+      obtain ⟨k, hk⟩ := h c x t ev hl hm
+      exact ⟨k, List.mem_append.mpr (Or.inl hk)⟩
 
 theorem hist_in_log (cfg : Cfg) (ops : List Op) : HistInLog (run cfg ops) := by
   unfold run
@@ -1064,6 +1078,16 @@ theorem stepS_nodrop (cfg : Cfg) (hc : cfg.cancel = false) (s : State) (op : Op)
     | some _ => exact h
   | poll c' => exact applyC_nodrop s c' _ (fun x => pollC_nodrop cfg s.now x hc) h
   | drop c' => exact applyC_nodrop s c' _ (fun x => dropC_nodrop cfg s.now x hc) h
+  | refused c' e =>
+    simp only [stepS]
+    cases lookup s.callers c' with
+    | some _ => exact h
+    | none =>
+      intro c k hm
+      simp only [List.mem_append, List.mem_singleton] at hm
+      rcases hm with hm | hm
+      · exact h c k hm
+      · cases hm
 
 theorem nodrop_reachable (cfg : Cfg) (hc : cfg.cancel = false) (ops : List Op) : NoDrop (run cfg ops) := by
   unfold run
@@ -1185,6 +1209,121 @@ theorem dropC_waiting_detached (cfg : Cfg) (now : Nat) (x : Caller) (hw : x.oute
 /-- for ok / error outcomes the oneshot carries exactly the inner outcome -/
 theorem resRx_eq_resOf (o : Out) (h : o = .ok ∨ ∃ kd, o = .err kd) : resRx o = resOf o := by
   rcases h with h | ⟨kd, h⟩ <;> simp [h, resRx, resOf]
+
+/-! ## readiness of the wrapped service: refused arrivals, and the operations the service sees -/
+
+/-- a refused arrival: the answer is the only trace — no record, no serial, the clock untouched -/
+theorem stepS_refused (cfg : Cfg) (s : State) (c : Nat) (e : Bool) :
+    (stepS cfg s (.refused c e)).callers = s.callers ∧ (stepS cfg s (.refused c e)).kOf = s.kOf ∧
+    (stepS cfg s (.refused c e)).serial = s.serial ∧ (stepS cfg s (.refused c e)).now = s.now := by
+  simp only [stepS]
+  cases lookup s.callers c <;> simp
+
+theorem newEvents_refused (cfg : Cfg) (s : State) (c : Nat) (e : Bool) (hnew : lookup s.callers c = none) :
+    newEvents cfg s (.refused c e) = [Ev.result c (refusal e)] := by
+  simp [newEvents, stepS, hnew]
+
+/-- the part of the state that calls live in: everything but the log -/
+def core (s : State) : Nat × Nat × List (Nat × Caller) × List (Nat × Nat) := (s.now, s.serial, s.callers, s.kOf)
+
+/-- an operation other than a refused arrival -/
+def Op.isCall : Op → Bool
+  | .refused _ _ => false
+  | _ => true
+
+theorem applyC_core (s s' : State) (c : Nat) (f : Caller → Caller × List CEv) (h : core s = core s') :
+    core (applyC s c f) = core (applyC s' c f) := by
+  simp only [core, Prod.mk.injEq] at h
+  obtain ⟨h1, h2, h3, h4⟩ := h
+  unfold applyC
+  rw [← h3]
+  cases lookup s.callers c with
+  | none => simp [core, h1, h2, h3, h4]
+  | some x => simp [core, h1, h2, h3, h4]
+
+theorem stepS_core (cfg : Cfg) (s s' : State) (op : Op) (h : core s = core s') :
+    core (stepS cfg s op) = core (stepS cfg s' op) := by
+  have h' := h
+  simp only [core, Prod.mk.injEq] at h'
+  obtain ⟨h1, h2, h3, h4⟩ := h'
+  cases op with
+  | adv ms => simp [stepS, core, h1, h2, h3, h4]
+  | arrive c tmo sc =>
+    simp only [stepS]
+    rw [← h3]
+    cases lookup s.callers c <;> simp [core, h1, h2, h3, h4]
+  | poll c => simp only [stepS, h1]; exact applyC_core s s' c _ h
+  | drop c => simp only [stepS, h1]; exact applyC_core s s' c _ h
+  | refused c e =>
+    simp only [stepS]
+    rw [← h3]
+    cases lookup s.callers c <;> simp [core, h1, h2, h3, h4]
+
+theorem stepS_refused_core (cfg : Cfg) (s : State) (c : Nat) (e : Bool) :
+    core (stepS cfg s (.refused c e)) = core s := by
+  obtain ⟨h1, h2, h3, h4⟩ := stepS_refused cfg s c e
+  simp [core, h1, h2, h3, h4]
+
+/-- refused arrivals leave every call exactly as it is: the clock, the serials and every caller's
+record (phase, start, deadline, fate of the inner call, history) are those of the run without them -/
+theorem foldl_core_filter (cfg : Cfg) (ops : List Op) (s s' : State) (h : core s = core s') :
+    core (ops.foldl (stepS cfg) s) = core ((ops.filter Op.isCall).foldl (stepS cfg) s') := by
+  induction ops generalizing s s' with
+  | nil => exact h
+  | cons o os ih =>
+    cases o with
+    | refused c e =>
+      have hf : (Op.refused c e :: os).filter Op.isCall = os.filter Op.isCall := rfl
+      rw [hf, List.foldl_cons]
+      exact ih _ _ ((stepS_refused_core cfg s c e).trans h)
+    | adv ms =>
+      have hf : (Op.adv ms :: os).filter Op.isCall = Op.adv ms :: os.filter Op.isCall := rfl
+      rw [hf, List.foldl_cons, List.foldl_cons]
+      exact ih _ _ (stepS_core cfg s s' _ h)
+    | arrive c tmo sc =>
+      have hf : (Op.arrive c tmo sc :: os).filter Op.isCall = Op.arrive c tmo sc :: os.filter Op.isCall := rfl
+      rw [hf, List.foldl_cons, List.foldl_cons]
+      exact ih _ _ (stepS_core cfg s s' _ h)
+    | poll c =>
+      have hf : (Op.poll c :: os).filter Op.isCall = Op.poll c :: os.filter Op.isCall := rfl
+      rw [hf, List.foldl_cons, List.foldl_cons]
+      exact ih _ _ (stepS_core cfg s s' _ h)
+    | drop c =>
+      have hf : (Op.drop c :: os).filter Op.isCall = Op.drop c :: os.filter Op.isCall := rfl
+      rw [hf, List.foldl_cons, List.foldl_cons]
+      exact ih _ _ (stepS_core cfg s s' _ h)
+
+/-- the run against a wrapped service with any readiness is the run of the operations the service sees -/
+theorem foldl_stepR (cfg : Cfg) (ops : List Op) (p : Rd × State) :
+    (ops.foldl (stepR cfg) p).2 = (effFrom cfg p ops).foldl (stepS cfg) p.2 := by
+  induction ops generalizing p with
+  | nil => rfl
+  | cons o os ih =>
+    simp only [List.foldl_cons, effFrom]
+    rw [ih]
+    rfl
+
+theorem runR_eq_run (cfg : Cfg) (rd : Rd) (ops : List Op) :
+    (runR cfg rd ops).2 = run cfg (effOps cfg rd ops) :=
+  foldl_stepR cfg ops (rd, init)
+
+/-- what an arrival becomes: determined by the wrapped service's answer alone -/
+theorem effOp_arrive (rd : Rd) (s : State) (c : Nat) (tmo : Option Tmo) (sc : Step)
+    (hnew : lookup s.callers c = none) :
+    (effOp rd s (.arrive c tmo sc)).2 =
+      match (rd.answer s.now).1 with
+      | .ready => .arrive c tmo sc
+      | .pending => .refused c false
+      | .err => .refused c true := by
+  simp only [effOp, hnew]
+  rcases hA : rd.answer s.now with ⟨a, rd'⟩
+  cases a <;> simp
+
+theorem effOp_other (rd : Rd) (s : State) (op : Op) (h : ∀ c tmo sc, op ≠ .arrive c tmo sc) :
+    effOp rd s op = (rd, op) := by
+  cases op with
+  | arrive c tmo sc => exact absurd rfl (h c tmo sc)
+  | _ => rfl
 
 /-- nothing is to be had from polling: a full pass of polls over all callers is silent -/
 def Settled (cfg : Cfg) (s : State) : Prop :=
